@@ -48,6 +48,12 @@ Probes == <<
   P({"C01", "C17"}, <<110,111,115,117,99,104,32,124,32,116,121,112,101,40,64,41>>, {Str(<<110,117,108,108>>)}),
   P({"C01", "C17"}, <<91,96,123,34,98,34,58,49,125,96,44,32,96,123,125,96,93,91,42,93,46,98,46,116,121,112,101,40,64,41>>, {Arr(<<Str(<<110,117,109,98,101,114>>)>>)}),
   P({"C01", "C17"}, <<110,111,115,117,99,104,46,110,111,116,95,110,117,108,108,40,64,44,32,96,49,96,41>>, {Null}),
+  \* C01: a multi-select is evaluated on a null current node (one member or several), a sub-expression on null is null
+  P({"C01", "C17"}, <<110,111,115,117,99,104,32,124,32,91,64,44,32,64,93>>, {Arr(<<Null, Null>>)}),
+  P({"C01", "C17"}, <<110,111,115,117,99,104,32,124,32,91,64,93>>, {Arr(<<Null>>)}),
+  P({"C01", "C17"}, <<110,111,115,117,99,104,32,124,32,123,97,58,32,64,44,32,98,58,32,96,49,96,125>>, {Obj(<<Mem(<<97>>, Null), Mem(<<98>>, JInt(1))>>)}),
+  P({"C01", "C17"}, <<110,111,115,117,99,104,46,91,64,44,32,64,93>>, {Null}),
+  P({"C01", "C17"}, <<110,111,115,117,99,104,46,123,97,58,32,64,44,32,98,58,32,64,125>>, {Null}),
   \* C04: a let expression is not a right-hand side of "." (but the identifier let is)
   P({"C04", "C19"}, <<113,46,108,101,116,32,36,120,32,61,32,113,32,105,110,32,36,120>>, {ErrS({"syntax"})}),
   P({"C04", "C19"}, <<64,46,42,46,108,101,116,32,36,120,32,61,32,64,32,105,110,32,36,120>>, {ErrS({"syntax"})}),
